@@ -114,7 +114,7 @@ func (s Set[T]) RemoveSet(items Set[T]) bool {
 
 // Has returns true if ALL items are contained.
 func (s Set[T]) Has(items ...T) bool {
-	if len(s) == 0 || len(s) < len(items) {
+	if len(s) == 0 {
 		return false
 	}
 	for _, item := range items {
